@@ -27,7 +27,7 @@ func init() {
 			{Name: "heartbeat-vs-listener", Pkg: ".", Files: files, Entry: "VerifTeardown", Mode: "all", Race: true,
 				Quick:    map[string]int{"maxsteps": 1, "maxevents": 1, "ticks": 1, "pin_client": 0, "pin_upend": 3, "pin_events": 1},
 				Thorough: map[string]int{"maxsteps": 1, "maxevents": 1, "ticks": 1, "pin_client": 0, "slim": 1, "stitched": 1, "budget_s": 10000},
-				Reach: []string{"handler returned"}, Functions: fns},
+				Reach:    []string{"handler returned"}, Functions: fns},
 		},
 		Assume: []string{
 			"websocket library = harness connection model (message queue + closed flag; a text frame is two writes with a scheduling point between them); upgrade and dial always succeed; the ticker may fire at any scheduling point at most `ticks` times",
